@@ -156,7 +156,7 @@ def permute_plan_st(draw, tier):
     if det and cfg["lp"][0] not in ("ThompsonSampling", "Popularity") and twin.is_deterministic(cfg):
         fam = "F"
     h = gen.History(draw, cfg, reward_family=fam, exact_only=(fam is None), max_rows=10,
-                    grid=draw(st.sampled_from(["int", "half"])))
+                    grid=draw(st.sampled_from(["int", "half", "mixed"])))
     h.fit() if draw(st.integers(0, 3)) else h.partial_fit()
     for _ in range(draw(st.integers(0, 6))):
         gen.step_any(h, ["partial_fit", "partial_fit", "fit", "add_arm", "remove_arm", "predict",
